@@ -797,6 +797,14 @@ class Piece:
     def render(self, twin=False):
         if self.kind != 'fn':
             return self.text
+        if not getattr(self, '_r6_auto', False):
+            # syntax-only normalisation applied to every function, whether or not today's source needs it (lesson of seed S4_C13):
+            # a let chain introduced by a later change must not turn a violation into "unsupported construct"
+            self._r6_auto = True
+            try:
+                self.R6()
+            except LostAnchor:
+                pass
         text = self.text
         code = scan(text)
         m = re.search(r'\bfn\s+\w+', text)
